@@ -28,6 +28,17 @@ pub fn rt_case(ctx: &mut Ctx, ls: &Layouts, compressed: bool, frame: &[u8], mode
     }
 }
 
+/// … for frames drawn by the in-domain generator (defined enumerants and flag bits, 0/1 booleans, well-formed cars and
+/// tracks, counts that match): the encoder can produce every one of them, so the decoder refusing one is a packet that does
+/// not survive encoding and decoding
+pub fn rt_case_in_domain(ctx: &mut Ctx, ls: &Layouts, compressed: bool, frame: &[u8], model_line: bool) {
+    rt_case(ctx, ls, compressed, frame, model_line);
+    if let Dec::ErrDecode(_) | Dec::ErrFraming(_) | Dec::None(_) = real_decode(compressed, frame) {
+        let kind = ls.kinds.iter().find(|l| l["type_no"].as_u64() == frame.get(1).map(|b| *b as u64)).and_then(|l| l["kind"].as_str()).unwrap_or("?").to_string();
+        ctx.violation(&format!("c01/in-domain-rejected/{}", kind), "a frame with in-domain field values (one the encoder can produce) is refused by the decoder", &format!("pkt.rt {}", frame_text(compressed, frame)), "a packet", "error");
+    }
+}
+
 pub fn roundtrip_oracle(ctx: &mut Ctx, ls: &Layouts, compressed: bool, p: &Packet, op: &str) {
     let c1 = canon_packet(ls, p);
     let kind = c1.split(' ').next().unwrap_or("?").to_string();
@@ -79,11 +90,23 @@ pub fn run(ctx: &mut Ctx) {
             for i in 0..per_kind {
                 let o = GenOpts { wild: 0, text: if i % 4 == 3 { 1 } else { 0 }, count: None };
                 let f = gen_frame(&mut ctx.rng, l, compressed, &o);
-                if o.text == 0 { rt_case(ctx, &ls, compressed, &f, true); } else {
+                if o.text == 0 { rt_case_in_domain(ctx, &ls, compressed, &f, true); } else {
                     // codepage text: the model cannot predict re-encoding of lossy text; decode line + oracle only
                     if let Dec::Pkt(p, _) = dec_case(ctx, &ls, compressed, &f) {
                         roundtrip_oracle(ctx, &ls, compressed, &p, &format!("pkt.rt {}", frame_text(compressed, &f)));
                     }
+                }
+            }
+            // counted kinds: element counts up to the protocol maximum (and whatever the size mode still has room for)
+            if matches!(l["tail"]["k"].as_str(), Some("vec") | Some("set")) {
+                let room = if compressed { 1020 } else { 252 };
+                for n in [8usize, 15, 16, 17, 30, 31, 32, 33, 40, 48, 60, 61, 62, 63, 64, 100, 120, 121, 127, 128, 169, 200, 254, 255] {
+                    let o = GenOpts { wild: 0, text: 0, count: Some(n) };
+                    // gen_frame cuts at the size limit: only frames that fit whole are round-trip inputs
+                    let probe = gen_frame(&mut Rng::new(n as u64), l, true, &o);
+                    if probe.len() >= 1020 || probe.len() > room { continue; }
+                    let f = gen_frame(&mut ctx.rng, l, compressed, &o);
+                    rt_case_in_domain(ctx, &ls, compressed, &f, true);
                 }
             }
             // exhaustive single-field sweeps: every enumerant, every single flag bit, all nibble pairs, boundary integers
